@@ -1,6 +1,6 @@
 From Coq Require Import List NArith ZArith Bool.
 From LTV.C15 Require Import ParamsGen.
-From LTV.C15 Require Import Model Proofs ProofsMid ProofsTableA ProofsTableB ProofsTableC ProofsTokens ProofsCounters ProofsReply ProofsOwn.
+From LTV.C15 Require Import Model Proofs ProofsMid ProofsTableA ProofsTableB ProofsTableC ProofsTokens ProofsCounters ProofsReply ProofsOwn ProofsPositive.
 Import ListNotations.
 Local Open Scope N_scope.
 
@@ -232,3 +232,38 @@ Proof.
   fold s in E, O, A1, A2. rewrite O in A1. split; [exact E|split; [exact O|split; [exact A1|exact A2]]].
 Qed.
 Print Assumptions no_internal_error.
+
+(* chain ordering by width: along the parent/child chain (root first) every bucket is exactly twice
+   as wide as its child, except the last two (own bucket and its sibling), which are equally wide *)
+Theorem chain_ordered_by_width : forall sha ownid c p t0 ops, ownid < idspace ->
+  t0 + ticks ops < u32 - 1 -> Forall op_ok ops ->
+  wok (cw (tab (run sha (init ownid c p t0) ops))).
+Proof.
+  intros sha ownid c p t0 ops Ho Nw F.
+  destruct (run_from_init sha ownid c p t0 ops Ho Nw F) as [_ [_ [_ [[_ [_ [_ [_ W]]]] _]]]]. exact W.
+Qed.
+Print Assumptions chain_ordered_by_width.
+
+(* ------------------------------------------------------------------ what holds about the two quirks *)
+
+(* the counters are exact (and all node caches empty) right after every housekeeping pass *)
+Theorem counters_exact_after_housekeeping : forall sha s secret b, err s = false ->
+  In b (tb (tab (fst (step sha s (OHousekeeping secret))))) ->
+  bgood b = count is_good (bnodes b) /\ bbad b = count is_bad (bnodes b) /\ bcache b = [].
+Proof. exact ProofsPositive.counters_exact_after_housekeeping. Qed.
+Print Assumptions counters_exact_after_housekeeping.
+
+(* a filled cache is returned verbatim; a rebuild stores exactly the list it returns, and that list
+   consists of nodes of the table that are not bad at that moment (reply_nodes_live_when_fresh):
+   the nodes of a reply are the nodes that were non-bad when the bucket's cache was last rebuilt *)
+Theorem reply_nodes_from_cache : forall t id b e c, find_bucket id (tb t) = Some b -> bcache b = e :: c ->
+  closest_nodes t id = (t, e :: c).
+Proof. exact closest_cached. Qed.
+Print Assumptions reply_nodes_from_cache.
+
+Theorem cache_rebuild_stores_reply : forall t id b, find_bucket id (tb t) = Some b -> bcache b = [] ->
+  get_bucket (bhi b) (tb t) = Some b ->
+  exists b', get_bucket (bhi b) (tb (fst (closest_nodes t id))) = Some b' /\
+             bcache b' = snd (closest_nodes t id) /\ bnodes b' = bnodes b.
+Proof. exact closest_rebuild_stores. Qed.
+Print Assumptions cache_rebuild_stores_reply.
